@@ -86,9 +86,10 @@ class Record:
 
 
 class AstDB:
-    def __init__(self, cfg):
+    def __init__(self, cfg, tu=None):
         self.cfg = cfg
-        self.tops = _load_ast(cfg)
+        self.tu = tu
+        self.tops = _load_ast(cfg, tu)
         self.by_id = {}
         self.funcs = []          # every function-like decl with a body
         self.all_func_decls = {}  # id -> Func (with or without body)
